@@ -71,6 +71,7 @@ def cases(tier, seed):
     for site in ("callable", "should_retry", "sleep_time", "poll_fn", "map_fn"):
         for direction in ("fault|cancel", "cancel|fault"):
             out.append({"name": "fault.sweep/%s/%s" % (site, direction), "kind": "sweep", "site": site, "dir": direction, "cap": cap})
+    out.append({"name": "fault.sweep-worker/poll_fn", "kind": "wsweep", "cap": 40 if tier == "quick" else None})
     for first in ("fail", "complete"):
         out.append({"name": "fault.depth2/retry/%s" % first, "kind": "depth2", "first": first, "budget": 150 if tier == "quick" else 3000})
     for layers in (["retry"], ["throttle"], ["retry", "map"], ["poll"], ["timeout"]):
@@ -392,6 +393,55 @@ class SScenario(object):
             res.key("sweep", self.case["name"], info.get("site"))
 
 
+class WScenario(object):
+    """The poll thread is inside a poll call that is going to raise; meanwhile another submission's
+    delegate finishes and registers for polling: it was never shown to that call and must not be failed."""
+
+    def __init__(self, case):
+        self.case = case
+
+    def setup(self):
+        ctx = Ctx()
+        tap()
+        n0 = len(instr.TRACKED)
+        w = FW(ctx, ["poll"], "poll_fn", {1, 2}, inline=False)
+        ctx.threads = [t for t in instr.TRACKED[n0:]]
+        ctx.w = w
+        w.submit(0, 0)
+        w.submit(1, 0)
+        instr.advance(0.05)
+        return ctx
+
+    def victim_role(self, ctx):
+        return ctx.threads[-1].vf_role
+
+    def start_victim(self, ctx):
+        def trig():
+            p = ctx.w.me.pending()
+            if p:
+                ctx.w.me.run(p[0])
+        return ctx.actor("T", trig).go()
+
+    def intervene(self, ctx):
+        p = ctx.w.me.pending()
+        if p:
+            ctx.w.me.run(p[0])
+
+    def finish(self, ctx):
+        ctx.w.at = set()
+        ctx.w.drain()
+        ctx.probe = ctx.w.submit(99, 0)
+        ctx.w.drain()
+
+    def oracle(self, ctx, res, info):
+        label = "%s placement=%s" % (self.case["name"], info.get("site"))
+        if ctx.probe is not None and not ctx.probe["f"].done():
+            res.violation("probe-stuck/poll_fn", "%s: probe never completed" % label)
+        ctx.w.judge(res, label, ctx.threads)
+        if info.get("hit"):
+            res.key("wsweep", info.get("site"))
+
+
 class D2Scenario(object):
     """retry: (delegate callback | cancel) then (submit thread | cancel) with a retry-on-value policy - the
     schedule behind 'invalid-state error from a lost race with cancel'."""
@@ -593,6 +643,8 @@ def run_case(case, res):
         Sweep(SScenario(case), res, "vt", case["name"]).run(case["cap"], rng, per_site=2)
     elif k == "depth2":
         Sweep2(D2Scenario(case), res, "vt", case["name"]).run(14, 10, rng, per_site=1, budget=case["budget"])
+    elif k == "wsweep":
+        Sweep(WScenario(case), res, "vt", case["name"]).run(case["cap"], rng, per_site=3)
     elif k == "sdrace":
         Sweep(SDScenario(case), res, "vt", case["name"]).run(case["cap"], rng, per_site=2)
     else:
